@@ -36,6 +36,7 @@ type LoopAnn struct {
 	Unroll   int
 	Body     *ssa.Function // checked at every back edge (what a completed iteration did)
 	BodyArgs []string
+	Heads    []*ssa.Function // pure functions of BodyArgs evaluated at the loop head; results are passed to Body after its named arguments
 }
 
 type Sweep struct {
@@ -504,6 +505,14 @@ func (db *SpecDB) readFile(prog *ssa.Program, p *packages.Package, spkg *ssa.Pac
 							}
 						case strings.HasPrefix(a, "args="):
 							la.BodyArgs = strings.Split(strings.TrimPrefix(a, "args="), ",")
+						case strings.HasPrefix(a, "head="):
+							for _, n := range strings.Split(strings.TrimPrefix(a, "head="), ",") {
+								if m := spkg.Func(n); m != nil {
+									la.Heads = append(la.Heads, m)
+								} else {
+									db.errf("loopbody: function %q not found", n)
+								}
+							}
 						}
 					}
 				}
